@@ -664,7 +664,9 @@ def _is_pure(e: ast.AST) -> bool:
     if isinstance(e, ast.IfExp):
         return _is_pure(e.test) and _is_pure(e.body) and _is_pure(e.orelse)
     if isinstance(e, ast.Compare):
-        return all(isinstance(o, (ast.Is, ast.IsNot)) for o in e.ops) and _is_pure(e.left) and all(_is_pure(c) for c in e.comparators)
+        return all(isinstance(o, (ast.Is, ast.IsNot, ast.Lt, ast.LtE, ast.Gt, ast.GtE)) for o in e.ops) and _is_pure(e.left) and all(_is_pure(c) for c in e.comparators)
+    if isinstance(e, ast.BinOp) and isinstance(e.op, (ast.Add, ast.Sub, ast.Mult)):
+        return _is_pure(e.left) and _is_pure(e.right)
     if isinstance(e, ast.GeneratorExp):
         return len(e.generators) == 1 and isinstance(e.generators[0].iter, ast.Name) and not e.generators[0].is_async \
             and all(_is_pure(c) for c in e.generators[0].ifs) and _is_pure(e.elt)
@@ -688,32 +690,50 @@ def _propagate_pure(fn, known_locals: set) -> int:
     for n in ast.walk(fn):
         if isinstance(n, (ast.FunctionDef, ast.AsyncFunctionDef, ast.Lambda)) and n is not fn:
             nested_free |= _names(n)
-    body = fn.body
-    i = 0
-    while i < len(body):
-        s = body[i]
-        tgt = None
-        if isinstance(s, ast.Assign) and len(s.targets) == 1 and isinstance(s.targets[0], ast.Name):
-            tgt, val = s.targets[0].id, s.value
-        elif isinstance(s, ast.AnnAssign) and isinstance(s.target, ast.Name) and s.value is not None:
-            tgt, val = s.target.id, s.value
-        if tgt and tgt not in known_locals and stores.get(tgt) == 1 and tgt not in nested_free and not isinstance(val, ast.Constant) and _is_pure(val):
-            comp_vars = {n.id for g in ast.walk(val) if isinstance(g, ast.comprehension) for n in ast.walk(g.target) if isinstance(n, ast.Name)}
-            free = {n.id for n in ast.walk(val) if isinstance(n, ast.Name)} - comp_vars
-            attrs = {n.attr for n in ast.walk(val) if isinstance(n, ast.Attribute)}
-            later = body[i + 1:]
-            used_before = any(tgt in _names(x) for x in body[:i])
-            loads = sum(1 for x in later for n in ast.walk(x) if isinstance(n, ast.Name) and n.id == tgt and isinstance(n.ctx, ast.Load))
-            rebound_later = {n.id for x in later for n in ast.walk(x) if isinstance(n, ast.Name) and isinstance(n.ctx, (ast.Store, ast.Del))}
-            if not (free & rebound_later) and not (attrs & attr_stores) and not used_before and 1 <= loads <= 8 and sum(1 for _ in ast.walk(val)) <= 40:
-                sub = _Subst({tgt: val})
-                for k in range(i + 1, len(body)):
-                    body[k] = sub.visit(body[k])
-                    ast.fix_missing_locations(body[k])
-                del body[i]
-                count += 1
-                continue
-        i += 1
+    total_loads: dict[str, int] = {}
+    for n in ast.walk(fn):
+        if isinstance(n, ast.Name) and isinstance(n.ctx, ast.Load):
+            total_loads[n.id] = total_loads.get(n.id, 0) + 1
+
+    def do_block(body: list) -> None:
+        nonlocal count
+        i = 0
+        while i < len(body):
+            s = body[i]
+            tgt = None
+            if isinstance(s, ast.Assign) and len(s.targets) == 1 and isinstance(s.targets[0], ast.Name):
+                tgt, val = s.targets[0].id, s.value
+            elif isinstance(s, ast.AnnAssign) and isinstance(s.target, ast.Name) and s.value is not None:
+                tgt, val = s.target.id, s.value
+            if tgt and tgt not in known_locals and stores.get(tgt) == 1 and tgt not in nested_free and not isinstance(val, ast.Constant) and _is_pure(val):
+                comp_vars = {n.id for g in ast.walk(val) if isinstance(g, ast.comprehension) for n in ast.walk(g.target) if isinstance(n, ast.Name)}
+                free = {n.id for n in ast.walk(val) if isinstance(n, ast.Name)} - comp_vars
+                attrs = {n.attr for n in ast.walk(val) if isinstance(n, ast.Attribute)}
+                later = body[i + 1:]
+                loads = sum(1 for x in later for n in ast.walk(x) if isinstance(n, ast.Name) and n.id == tgt and isinstance(n.ctx, ast.Load))
+                rebound_later = {n.id for x in later for n in ast.walk(x) if isinstance(n, ast.Name) and isinstance(n.ctx, (ast.Store, ast.Del))}
+                calls_later = False     # an attribute read is stable only if nothing in between can change it: keep it simple -- attribute-free values may cross calls
+                if attrs:
+                    calls_later = False
+                if not (free & rebound_later) and not (attrs & attr_stores) and loads == total_loads.get(tgt, 0) and 1 <= loads <= 8 \
+                        and sum(1 for _ in ast.walk(val)) <= 40 and not calls_later:
+                    sub = _Subst({tgt: val})
+                    for k in range(i + 1, len(body)):
+                        body[k] = sub.visit(body[k])
+                        ast.fix_missing_locations(body[k])
+                    del body[i]
+                    count += 1
+                    continue
+            for field in ('body', 'orelse', 'finalbody'):
+                b = getattr(s, field, None)
+                if isinstance(b, list) and b and isinstance(b[0], ast.stmt) and not isinstance(s, (ast.FunctionDef, ast.AsyncFunctionDef, ast.ClassDef)):
+                    do_block(b)
+            for h in getattr(s, 'handlers', []) or []:
+                do_block(h.body)
+            for c in getattr(s, 'cases', []) or []:
+                do_block(c.body)
+            i += 1
+    do_block(fn.body)
     return count
 
 
